@@ -7,6 +7,11 @@ from harness import wsgen, wsrun, wsoracle
 
 PROP = "C02"
 PROOF_MODULES = ["Abverif.Proofs.Lemmas.HeaderTable", "Abverif.Proofs.C02"]
+MANIFEST_ENTRY = {
+    "technique": 'Lean 4 theorems (kernel-checked header table over all 65 536 first-two-octet values x 32 contexts, length and close-code rules) + exhaustive header sweep and generated streams against the RFC judge',
+    "text": 'Proved: header_table - in every receiver context the processData cascade flags a header iff RFC 6455 5.2-5.5 / RFC 7692 6 forbid it (flags_table by decide +kernel, lifted to all octet pairs); extended-length rules; close-code rule = RFC 7.4 (against the code list). The receive model is compared read-by-read with real protocol objects (both frameworks); the real code is compared with the whole-stream Spec judge (WsSpec.judge) on every header pair in 32 contexts (thorough: all 65 536; quick: stratified) and on near-valid frame sequences under 9 segmentations each, incl. cuts after octet 1/2/3 of every header. Segmentation independence itself is observed (two known findings for failByDrop=False), not yet proved.',
+    "note": 'Trusted: Lean kernel; model tied by differential execution; the Spec judge is hand-written from the RFC; UTF-8 validator itself is C09 (pure-Python validator selected here).',
+}
 TRUSTED = [
     "Lean 4.33 kernel; axioms of every theorem within {propext, Classical.choice, Quot.sound}",
     "hand-written model Abverif/Model/Ws.lean of processData/onFrame*/processControlFrame/onCloseFrame/_fail_connection; "
